@@ -345,6 +345,9 @@ func checkC07(c *Ctx) {
 	c.Rule("C07.lookup", "Code.Address searches blocksByAddr (never the movable order), which NewCode builds as a copy; Code.Move permutes Code.blocks only; block.Address searches seq by current Begin()")
 	c.Rule("C07.bnd", "LowerBound/UpperBound/findBound as in C05.bnd")
 
+	if n := checkShifts(c, "C07.pair", pkgDeps); true {
+		c.RequireCount("C07.pair in-place shifts (moveFwd, moveBack)", n, 2)
+	}
 	// --- gate
 	for _, g := range []struct{ fn, check, arr string }{
 		{"(*" + pkgDeps + ".block).Move", "checkMove", "seq"},
